@@ -72,6 +72,25 @@ CLAIMED = {
               'temporary directories for counts {0,1,2,3,5,1023,1024,1025,1100,random} (thorough: every count 0..1100) x generation sets with holes / without live file / around and beyond the cap x other files; directory listing compared with the model and with an independent oracle of the property.'),
         note=('Trusted: Lean kernel; propext, Quot.sound, Classical.choice; directory as a finite map, rename()/open() as atomic steps, failed rename ignored as in the code; harness/rot.cpp; regexp extraction of max_rotation. '
               'Out-of-range indexing in the real code is seen through -D_GLIBCXX_ASSERTIONS/ASan in the harness build. Compressed (.gz) logs not exercised. Defect fixed in /repo (9a2911a): both loops ran from the configured count instead of the list length.')),
+    'C01': dict(
+        category='proof', design_ref='DESIGN.md section 7 C01',
+        technique='Lean 4 theorems about a hand-written executable model of the whole codec (tokeniser, typed values as text, encode with groups, decode/decode_group/factory) whose schema is regenerated from the freshly compiled FIX42UTEST tables + differential correspondence (build through the API, encode, Message::factory, dump, re-encode) under ASan/UBSan',
+        text=('Kernel-checked so far: C01_token_roundtrip (every rendered field tag=value<SOH> is tokenised back into exactly its tag text and value for every tag below 10^31 and every SOH-free value shorter than the value buffer, whatever follows), '
+              'C01_tag_roundtrip (every 16-bit tag number is read back unchanged), C01_int_value_roundtrip (every 32-bit integer value, negative values and INT_MIN/INT_MAX included, prints to a text that parses back and prints identically). '
+              'PARTIAL: the message-level statement (factory (encode m) = m for every conforming message with groups nested to any depth) is carried by the correspondence stream only until its proof lands: the complete executable model '
+              '(sections, groups, Length/data pairs, header/body/trailer hand-over, checksum) and the real codec are run on schema-driven messages of all 46 message types (optional subsets, type-domain values, group counts 0..4 nested, '
+              'data pairs, shuffled insertion order, BodyLength at the digit-count boundaries) and must agree byte for byte and field for field; an independent oracle checks decoded fields = built fields and re-encoded bytes = encoded bytes.'),
+        note=('Trusted: Lean kernel; propext, Quot.sound, Classical.choice; the hand-written codec model (tied by correspondence); the schema dumper in harness/codec.cpp; values restricted to canonical texts of their type; binary64 rendering not modelled '
+              '(float values are 2-digit dyadic decimals); only FIX42UTEST (FIX44 not compiled in the checks). Defects fixed in /repo on the way: 10fbd2e (endless loop in decode_group), b242f8e, acdbc65, 49332d7, 1d3fced, fc14f82, f9866b4 (see C03).')),
+    'C02': dict(
+        category='proof', design_ref='DESIGN.md section 7 C02',
+        technique='Lean 4 theorems about the encoder model (frame, BodyLength, CheckSum digits, field rendering, group rendering, position order as an invariant of add_field, insertion-order independence by uniqueness of sorted permutations) + differential correspondence with a stand-alone wire-format recogniser as oracle',
+        text=('Kernel-checked for every schema and message of the encoder model: C02_frame (8=BeginString|9=n| + header fields + body fields + trailer fields + 10=ccc|), C02_body_length (n is the canonical decimal of exactly the payload byte count), '
+              'C02_checksum (ccc = three decimal digits of the byte sum of everything before, mod 256), C02_fields_rendered / C02_group_rendered (decimal tag, =, value, SOH; a group is its count field followed by its elements in order), '
+              'C02_msgtype_third, C02_sorted_by_position (whatever the insertion order a section built through add_field is held in non-decreasing schema position) and C02_insertion_order_irrelevant (two insertion orders of the same fields give the same section). '
+              'Correspondence: every generated message is encoded by the real encoder from 1..3 shuffled insertion orders; the bytes must equal the model and satisfy an independent recogniser of the property clauses.'),
+        note=('Trusted: Lean kernel; propext, Quot.sound, Classical.choice; encoder model tied by correspondence; the std::multimap _pos is modelled as stable insertion by key; hypothesis: group count field = number of elements added; '
+              'fields without a schema position (f8c -F user fields, getPos = 0) keep insertion order - excluded from the order clause; encoding the same Message object twice without setup_reuse() is outside the quantifier (DESIGN.md).')),
 }
 
 PENDING_REASON = 'not yet covered: the Lean model and correspondence harness for this property have not been built in this framework yet (see DESIGN.md section 7 for the plan); no other technique is substituted'
